@@ -449,6 +449,10 @@ func checkC07(c *Check) {
 	c.Rule("R6", "shared with C03 (R7)", "the per-request chain is a fresh slice of application middleware followed by the chosen route's (or the not-found) handlers: no other request's handlers can appear in it", 5)
 	c.Share("C03", []string{"R7"}, 5)
 
+	// ---- R8 the chosen route is one that is eligible for this request's headers
+	c.Rule("R8", "shared with C09 (R1)", "a leaf reports a match only behind its header gate asked about this request's headers, on every path that reaches a leaf matcher (a route whose constraints fail is not chosen: the not-found chain or a lower-priority route runs)", 5)
+	c.Share("C09", []string{"R1"}, 5)
+
 	// ---- R5 determinism: no clock / randomness / environment in the routing path
 	c.Rule("R5", "E5 who-may-call ban", "functions of the routing path do not read the clock, random sources, the environment or package-level mutable state", 1)
 	banned := []string{"time.Now", "time.Since", "math/rand.", "crypto/rand.", "os.Getenv", "os.LookupEnv", "runtime.NumGoroutine"}
